@@ -1,10 +1,20 @@
 import CookModel.Basic.Proto
 import CookModel.Syntax.CharTable
 import CookModel.Driver.Render
+import CookModel.Analysis.Collector
 namespace Cook.Driver
 open Cook Proto
 
 def renderTok (t : Tok) : String := s!"{t.kind.name}:{t.start}:{t.stop}"
+
+/-- the environment of a real parser: extensions, empty (0) or bundled (1) converter -/
+def realEnv (ext conv : Nat) : Env where
+  cs := realCharSpec
+  ext := ⟨ext⟩
+  findUnit := if conv == 0 then fun _ => none else bundledFindUnit
+  stdCheck := fun _ _ => .ok      -- until the std-metadata model is plugged in (its effects are filtered from the reply)
+  fold := realFold
+  timeQ := 4
 
 def handleSyntax : List String → Option String
   | ["tokens", off, txt] => do
@@ -25,6 +35,24 @@ def handleSyntax : List String → Option String
     let ext ← parseNat? ext
     let s ← parseText? txt
     return rEvents (pullMetaEvents (α := Float) realCharSpec ⟨ext⟩ s)
+  | ["recipe", ext, conv, txt] => do
+    let ext ← parseNat? ext
+    let conv ← parseNat? conv
+    let s ← parseText? txt
+    let r := parseRecipe (α := Float) (realEnv ext conv) s
+    let hasFm := (r.output.map (fun c => c.frontMatter.isSome)).getD (parseFrontmatter realCharSpec s).isSome
+    return rAnalysis r hasFm
+  | ["metaonly", ext, conv, txt] => do
+    let ext ← parseNat? ext
+    let conv ← parseNat? conv
+    let s ← parseText? txt
+    let r := parseMetadata (α := Float) (realEnv ext conv) s
+    let hasFm := (parseFrontmatter realCharSpec s).isSome
+    return match r.panic with
+      | some p => s!"PANIC {p}"
+      | none => match r.output with
+        | none => "NOOUT"
+        | some c => if hasFm then "OUT fm" else "OUT meta=[" ++ " ".intercalate (c.metaMap.map (fun p => rStr p.1 ++ "=" ++ rStr p.2)) ++ "]"
   | ["classbits", cp] => do
     let cp ← parseNat? cp
     return toString (classBits (Char.ofNat cp))
